@@ -405,9 +405,10 @@ fn format_conditional_multiline(
         {
             let else_if_part =
                 format_conditional_multiline(else_cond, else_then, else_else, max_cols, indent);
+            // `if` stays on the line of its condition: the grammar requires a blank (not a
+            // line break) after `if`
             format!(
-                "if\n{}{}\n{}then\n{}{}\n{}else {}",
-                make_indent(inner_indent),
+                "if {}\n{}then\n{}{}\n{}else {}",
                 format_expr_impl(condition, max_cols, inner_indent),
                 make_indent(indent),
                 make_indent(inner_indent),
@@ -417,8 +418,7 @@ fn format_conditional_multiline(
             )
         } else {
             format!(
-                "if\n{}{}\n{}then\n{}{}\n{}else\n{}{}",
-                make_indent(inner_indent),
+                "if {}\n{}then\n{}{}\n{}else\n{}{}",
                 format_expr_impl(condition, max_cols, inner_indent),
                 make_indent(indent),
                 make_indent(inner_indent),
